@@ -9,6 +9,9 @@ import sys
 ROOT = os.path.join(os.path.dirname(os.path.dirname(os.path.abspath(__file__))), "coq", "theories")
 
 
+STANDALONE = {"AckProofs", "LocksProofs", "LedgerProofs", "PoolProofs"}
+
+
 def statements(modname):
     text = open(os.path.join(ROOT, "proofs", modname + ".v")).read()
     out = {}
@@ -24,9 +27,10 @@ def emit(pid, title, imports, items, examples=""):
     lines = ["(** %s. %s" % (pid, title),
              "    This file only pins statements: every theorem restates a lemma of proofs/ verbatim and is closed by it. *)",
              ("From CacheD Require Import Base Ledger." if "LedgerProofs" in imports else
+              "From CacheD Require Import Base PoolProto." if "PoolProofs" in imports else
               "From CacheD Require Import Base Locks.\nLocal Open Scope nat_scope." if "LocksProofs" in imports else
               "From CacheD Require Import Base Sketch Model%s." % (" Ack" if "AckProofs" in imports else "")),
-             "From CacheD.proofs Require Import %s." % " ".join(["Closing"] + [i for i in imports if i not in ("Closing",)]) if ("AckProofs" not in imports and "LocksProofs" not in imports and "LedgerProofs" not in imports)
+             "From CacheD.proofs Require Import %s." % " ".join(["Closing"] + [i for i in imports if i not in ("Closing",)]) if not (set(imports) & STANDALONE)
              else "From CacheD.proofs Require Import %s." % " ".join(imports), ""]
     for mod, lemma, suffix in items:
         if mod not in cache:
@@ -34,11 +38,11 @@ def emit(pid, title, imports, items, examples=""):
         if lemma not in cache[mod]:
             raise SystemExit("no STATEMENT lemma %s in %s" % (lemma, mod))
         comment, stmt = cache[mod][lemma]
-        name = "%s_%s" % (pid.split("_")[0] if pid.endswith("_ledger") else pid, suffix or lemma)
+        name = "%s_%s" % (pid.split("_")[0] if "_" in pid else pid, suffix or lemma)
         if comment:
             lines.append("(** %s *)" % comment)
         lines.append("Theorem %s :\n  %s." % (name, stmt))
-        if "AckProofs" in imports or "LocksProofs" in imports or "LedgerProofs" in imports:
+        if set(imports) & STANDALONE:
             lines.append("Proof. exact %s. Qed." % lemma)
         else:
             lines.append("Proof. close_with %s. Qed." % lemma)
@@ -62,6 +66,10 @@ A, I, P, K, W, H, T = "AdmissionProofs", "InvProofs", "ApiProofs", "AckProofs", 
 spec("C01_ledger", "Total weight never exceeds the configured cache weight: every interleaving of the individual ledger actions", ["LedgerProofs"], [
     ("LedgerProofs", "ledger_bounded", "all_interleavings"), ("LedgerProofs", "ledger_exact_when_quiet", None),
     ("LedgerProofs", "ledger_add_within_limit", None),
+])
+spec("C15_pool", "Reads never wait for the sketch; access records are counted or dropped: every interleaving of any number of readers, buffers and the consumer", ["PoolProofs"], [
+    ("PoolProofs", "hits_conserved", "all_interleavings_hits_conserved"), ("PoolProofs", "added_conserved", "all_interleavings_added_conserved"),
+    ("PoolProofs", "pool_bounded", None), ("PoolProofs", "reader_never_waits_for_consumer", None),
 ])
 spec("C01", "Total weight never exceeds the configured cache weight", [I, A], [
     (A, "used_bounded_step", None), (A, "used_bounded_run", None), (I, "used_nonneg", None),
